@@ -68,7 +68,9 @@ func runMain(args []string) {
 	t0 := time.Now()
 	res := &Result{Property: cfg.prop, Tier: cfg.tier, Seed: cfg.seed, CmdHist: map[string]int{}, ErrHist: map[string]int{}, Extra: map[string]any{}}
 	var err error
-	if cfg.replay != "" {
+	if cfg.replay != "" && specialReplay[cfg.prop] {
+		err = streams[cfg.prop](cfg, res)
+	} else if cfg.replay != "" {
 		err = replayFile(cfg, res)
 	} else {
 		fn, ok := streams[cfg.prop]
@@ -95,6 +97,9 @@ func runMain(args []string) {
 }
 
 var streams = map[string]func(runCfg, *Result) error{}
+
+// streams that interpret their own replay files
+var specialReplay = map[string]bool{"C17": true}
 
 // runHistories drives the sequential engine over generated histories.
 func runHistories(cfg runCfg, res *Result, n int, gen func(i int) History) error {
